@@ -319,8 +319,10 @@ def run(ctx):
     n = ctx.scale(100000, 60000)
     budget = 40 if ctx.quick else 420
     base = ctx.seed * 1000003 + (ctx.worker or 0) * 100003
+    import time
+    t_start = time.time()          # the budget counts from here (imports can be slow on a loaded machine); a minimum is always run
     for i in range(n):
-        if ctx.time_left(budget) < 0:
+        if i >= 60 and time.time() - t_start > budget:
             ctx.note("stopped by time budget after %d histories" % i)
             break
         seed = base + i
